@@ -7,6 +7,7 @@ THEOREMS = [
     "Lou.C06.fwd_stage_order_doc", "Lou.C06.fwd_stage_chain", "Lou.C06.back_stage_order", "Lou.C06.fwd_map_compose",
     "Lou.C06Pass.fwdTest_bounds", "Lou.C06Pass.select_first", "Lou.C06Pass.select_best", "Lou.C06Pass.fwdAction_ok",
     "Lou.C06Pass.fwdAction_replaces_brackets", "Lou.C06Pass.fwdStage_contract", "Lou.C06Pass.fwdStage_total",
+            "Lou.C06Pass.backTest_bounds", "Lou.C06Pass.backStage_contract", "Lou.C06Pass.backStage_total",
 ]
 
 CLAIM = dict(
@@ -117,12 +118,31 @@ def layer_b(v, exe, rng, tier, dist):
                                  {"tn": tn, "text": txt}))
     from .. import gen_features as GF
     extra = []
-    for i, tname in enumerate((corpus.quick_tables()[:14]) if tier == "quick" else corpus.all_tables()):
-        extra.append(common.Case("c06-sk%d" % i, [], ["DUMP %s" % corpus.tpath(tname)], {"tn": "s-" + tname, "text": tname}))
+    # shipped and wide tables: key/chain check of every pass rule, and every recorded stage the model covers (stages whose
+    # chains use swap, grouping or the look-ahead search are answered UNSUPPORTED and skipped)
+    shipped = (corpus.quick_tables()[:20]) if tier == "quick" else corpus.all_tables()
+    vocab = corpus.table_vocab(exe, shipped)
+    for i, tname in enumerate(shipped):
+        vv = vocab.get(tname)
+        ops = ["DUMP %s" % corpus.tpath(tname)]
+        for _ in range(4 if tier == "quick" else 12):
+            u = vv.text(rng, 14) if (vv and vv.by_op and rng.random() < 0.7) else corpus.rand_input(rng, 14)
+            cap = rng.choice([len(u), 2 * len(u) + 2, 8 * len(u) + 40, 8 * len(u) + 40])
+            ops.append("FWD %s %d %d - 128 %s - -" % (corpus.tpath(tname), rng.choice([4, 4, 0, 4 | 1]), cap, common.wide(u)))
+            c = vv.braille(rng, 14) if (vv and vv.by_op and rng.random() < 0.7) else corpus.rand_braille(rng, 14, dots_io=True)
+            ops.append("BWD %s 4 %d - 128 %s - -" % (corpus.tpath(tname), cap, common.wide(c)))
+        extra.append(common.Case("c06-sk%d" % i, ["HOOK trace 1", "HOOK budget 3000000"], ops, {"tn": "s-" + tname, "text": tname}))
     for i in range(60 if tier == "quick" else 2000):
         w = GF.gen(rng, want=None)
         tn = "wk%d.ctb" % i
-        extra.append(common.Case("c06-wk%d" % i, ["TBL %s %s" % (tn, common.hexbytes(w.text))], ["DUMP %s" % tn], {"tn": tn, "text": w.text}))
+        ops = ["DUMP %s" % tn]
+        for _ in range(4):
+            u = GF.text_for(rng, w, 12)
+            cap = rng.choice([len(u), 2 * len(u) + 2, 8 * len(u) + 40])
+            ops.append("FWD %s 4 %d - 128 %s - -" % (tn, cap, common.wide(u)))
+            ops.append("BWD %s 4 %d - 128 %s - -" % (tn, cap, common.wide(GF.cells_for(rng, w, 12))))
+        extra.append(common.Case("c06-wk%d" % i, ["HOOK trace 1", "HOOK budget 3000000", "TBL %s %s" % (tn, common.hexbytes(w.text))], ops,
+                                 {"tn": tn, "text": w.text}))
     common.run_cases(exe, cases + extra, batch=10, timeout=120)
     cases = cases + extra
     lines, tags = [], []
